@@ -43,6 +43,7 @@ type c10cfg struct {
 	useTTL  bool
 	lazy    int
 	race    bool
+	shortTTL bool
 }
 
 func c10Setup(rc *RunCtx) simrt.Config {
@@ -54,6 +55,8 @@ func c10Setup(rc *RunCtx) simrt.Config {
 	c.maxConc = 1 + r.Choose(6)
 	c.useTTL = r.Choose(2) == 0
 	c.lazy = []int{0, 0, 3600}[r.Choose(3)]
+	c.shortTTL = r.Choose(2) == 0
+	rc.Cfg["short_ttl"] = c.shortTTL
 	rc.Cfg["strategy"] = sname
 	rc.Cfg["kind"] = "cache plugin + mutators"
 	rc.Cfg["keys"] = c.keys
@@ -128,15 +131,21 @@ func c10Main(rc *RunCtx) {
 		ver *c10ver
 		orig *dns.Msg
 	}
+	obsOf := func(ctx context.Context) *obs {
+		if o, ok := ctx.Value(obsKey{}).(*obs); ok {
+			return o
+		}
+		return &obs{} // the lazy refresh runs on its own context
+	}
 	observer := execFunc(func(ctx context.Context, qc *query_context.Context) error {
-		o := ctx.Value(obsKey{}).(*obs)
+		o := obsOf(ctx)
 		if r := qc.R(); r != nil {
 			o.hit = packOrPanic(r)
 		}
 		return nil
 	})
 	vandal := execFunc(func(ctx context.Context, qc *query_context.Context) error {
-		o := ctx.Value(obsKey{}).(*obs)
+		o := obsOf(ctx)
 		if r := qc.R(); r != nil && o.hit != nil {
 			vandalize(r, simrt.Choose(50))
 			simrt.Fault("hit_vandalised")
@@ -144,11 +153,14 @@ func c10Main(rc *RunCtx) {
 		return nil
 	})
 	ttls := []uint32{60, 61, 120, 300, 3600}
+	if c.shortTTL {
+		ttls = []uint32{1, 2, 3, 4, 60, 300} // entries go stale within the run
+	}
 	origin := execFunc(func(ctx context.Context, qc *query_context.Context) error {
 		if qc.R() != nil {
 			return nil
 		}
-		o := ctx.Value(obsKey{}).(*obs)
+		o := obsOf(ctx)
 		ans := genAnswer(rc.R, qc.Q(), ttls, false)
 		ans.Rcode = dns.RcodeSuccess
 		ans.Ns = nil
@@ -222,17 +234,25 @@ func c10Main(rc *RunCtx) {
 				ref := new(dns.Msg)
 				ref.Unpack(ver.Snap)
 				el := uint32((now - ver.At) / time.Second)
+				life := time.Duration(minTTL(ref)) * time.Second
+				stale := now-ver.At >= life
+				if stale && c.lazy == 0 {
+					return // serving it at all would be C05's business
+				}
 				for _, s := range [][]dns.RR{ref.Answer, ref.Ns, ref.Extra} {
 					for _, rr := range s {
-						if rr.Header().Ttl > el {
+						switch {
+						case stale:
+							rr.Header().Ttl = 5 // a stale (lazy) hit: same content, TTL 5, the hitting query's ID
+						case rr.Header().Ttl > el:
 							rr.Header().Ttl -= el
-						} else {
+						default:
 							rr.Header().Ttl = 1
 						}
 					}
 				}
-				if c.lazy > 0 && now-ver.At >= 60*time.Second {
-					return // stale answers (TTL 5) are C05's business
+				if stale {
+					simrt.Probe("c10.stale_hit_verified")
 				}
 				ref.Id = id
 				want := packOrPanic(ref)
